@@ -818,9 +818,9 @@ def run(chk: core.Check):
     # --- degenerate values: every engine gets the SAME circuit (two-mode components only, so that MPS takes it) on
     # even rounds; on odd rounds the four engines that accept wider blocks get monomial 3-mode blocks as well
     deg_sizes = chk.pick([(2, 2), (3, 2), (3, 3), (4, 2), (2, 3), (3, 1), (3, 2), (4, 2)],
-                         [(2, 2), (3, 2), (3, 3), (4, 2), (2, 4), (3, 1), (4, 3), (5, 2)])
+                         [(2, 2), (3, 2), (3, 3), (4, 2), (2, 4), (3, 1), (5, 2), (3, 2)])
     deg_offset = rng.randrange(len(DEG_CYCLE))
-    for i in range(chk.pick(8, 16)):
+    for i in range(chk.pick(8, 12)):
         m, n = deg_sizes[i % len(deg_sizes)]
         shape = ("between", "between", "mixed", "all")[i % 4]
         forced = {0: "bs-theta-zero", 1: "u2-diagonal"}.get(i % 4)
